@@ -86,11 +86,16 @@ def c16_text(g, pkg, lang, rnd):
             # every reference of a long rule, one-digit ones before the two-digit ones that start with the same digit
             return '{ $$ = %s }' % ' + '.join('$%d' % (j + 1) for j in range(k))
         return rnd.choice(acts)(k)
+    # the %union body as people lay it out: one field per line, the first field on the line of the brace, everything on one line
+    style = rnd.randrange(4)
     if lang == 'go':
-        head = '%{\npackage ' + pkg + '\nimport "fmt"\n%}\n%union {\n v0 int\n v1 int\n v2 int\n}\n'
+        union = ['{\n v0 int\n v1 int\n v2 int\n}', '{\n v0 int\n v1 int\n v2 int\n}', '{ v0 int\n v1 int\n v2 int }', '{ v0 int; v1 int; v2 int }'][style]
+        head = '%{\npackage ' + pkg + '\nimport "fmt"\n%}\n%union ' + union + '\n'
         epi = GO_EPI + 'var _ = fmt.Sprint\n'
     else:
-        head = '%{\n"use strict";\n%}\n%union {\n v0 :number = 0;\n v1 :number = 0;\n v2 :number = 0;\n}\n'
+        union = ['{\n v0 :number = 0;\n v1 :number = 0;\n v2 :number = 0;\n}', '{\n v0 :number = 0;\n v1 :number = 0;\n v2 :number = 0;\n}',
+                 '{ v0 :number = 0;\n v1 :number = 0;\n v2 :number = 0; }', '{ v0 :number = 0; v1 :number = 0; v2 :number = 0; }'][style]
+        head = '%{\n"use strict";\n%}\n%union ' + union + '\n'
         epi = TS_EPI
     return head + genrun.decl_block(g, lang) + '%%\n' + gram.render_rules(g, action) + '%%\n' + epi
 
@@ -490,7 +495,7 @@ def item_text_dot(d, r, dot):
     return s
 
 
-def parse_listing(text):
+def parse_listing(text, trans=None):
     states, la = [], {}
     sec = None
     cur = None
@@ -512,6 +517,9 @@ def parse_listing(text):
                 cur['gotos'].append((m.group(1), int(m.group(2))))
             else:
                 cur['gotos'].append(('?' + ln, -1))
+        elif sec and sec.startswith('SHOW TRANS'):
+            if trans is not None:
+                trans.append(ln)
         elif sec and sec.startswith('Show LookAhead'):
             m = re.match(r'^(\d+):(.*-->.*?) : (.*)$', ln)
             if m:
@@ -606,7 +614,15 @@ def run_C18(ctx):
             n = len(d['lr0'])
             problems = []
             # ---- listing of `debug` (same run as the tables)
-            states, la = parse_listing(d['stdout'])
+            shown_trans = []
+            states, la = parse_listing(d['stdout'], shown_trans)
+            # the transition section: one line per symbol transition (state:symbol) and per completed item (state:rule text)
+            want_trans = sorted(('%d:%s' % (tr[0], sname[d['rules'][tr[1]]['lhs']] + '-->' + ''.join(' %s ' % sname[x] for x in d['rules'][tr[1]]['rhs']))) if tr[2] == 1
+                                else '%d:%s' % (tr[0], sname[tr[1]]) for tr in d['trans'])
+            if sorted(shown_trans) != want_trans:
+                miss = [x for x in want_trans if x not in shown_trans][:3]
+                extra = [x for x in shown_trans if x not in want_trans][:3]
+                problems.append('listing, transition section: missing %s, not transitions of the automaton: %s' % (miss, extra))
             if len(states) != n:
                 problems.append('the listing shows %d states, the automaton has %d' % (len(states), n))
             for q, (st, real) in enumerate(zip(states, d['lr0'])):
